@@ -9,6 +9,7 @@ An Obligation wraps a `body(V)` written once against a value provider V:
 """
 import importlib
 import json
+import re
 import os
 import random
 import subprocess
@@ -51,7 +52,7 @@ class Obligation(object):
         self.params = None
 
     def ref(self):
-        return {"factory": self.factory, "params": self.params, "id": self.id}
+        return {"factory": self.factory, "params": self.params, "id": self.id, "tag": getattr(self, "tag", None)}
 
 
 def factory(fn):
@@ -166,10 +167,19 @@ class _Stop(Exception):
     pass
 
 
-def _clauses(post):
+_TAG = re.compile(r"^C\d\d ")
+
+
+def _clauses(post, tag=None):
+    """clauses of a postcondition; a clause named 'Cnn ...' belongs to property Cnn only and is
+    dropped when the obligation is checked on behalf of another property"""
     if isinstance(post, dict):
-        return list(post.items())
-    return [("post", post)]
+        items = list(post.items())
+    else:
+        items = [("post", post)]
+    if tag:
+        items = [(k, v) for k, v in items if not _TAG.match(k) or k.startswith(tag + " ")]
+    return items
 
 
 def _model_inputs(model, vars_, mode):
@@ -249,7 +259,7 @@ def verify(ob, tracer=None):
                 res["raised_paths"] += 1
                 clauses = [("total(no exception): %s: %s" % (type(r.exc).__name__, str(r.exc)[:200]), False)]
             else:
-                clauses = _clauses(r.post)
+                clauses = _clauses(r.post, getattr(ob, "tag", None))
             if res["sample_path"] is None and r.exc is None:
                 res["sample_path"] = {"decisions": len(r.decisions),
                                       "path_condition": [str(z3.simplify(c))[:160] for c in r.pc[:6]],
@@ -353,7 +363,7 @@ def run_concrete(ob, assign=None, rng=None):
     except Exception as e:
         return "fail", "raised %s: %s" % (type(e).__name__, str(e)[:300]), V.used
     bad = []
-    for cname, p in _clauses(post):
+    for cname, p in _clauses(post, getattr(ob, "tag", None)):
         if not bool(p):
             bad.append(cname)
     if bad:
